@@ -188,6 +188,12 @@ def cases():
         for new in TYPES:
             seq = ['GLY', 'ALA', resname]
             out.append({'sequence': seq, 'mutations': [('#3', new)], 'modifications': [('cter', 'C-ter'), ('nter', 'N-ter')]})
+    # two modification requests on ONE residue (a protonated side chain on a terminal residue), in both orders
+    for seq, side in ((['GLU', 'GLY', 'ALA'], ('#1', 'GLU-HE1')), (['ALA', 'GLY', 'ASP'], ('#3', 'ASP-HD1'))):
+        term = ('nter', 'N-ter') if side[0] == '#1' else ('cter', 'C-ter')
+        if side[1] in charmm().modifications:
+            out.append({'sequence': seq, 'mutations': [], 'modifications': [side, term]})
+            out.append({'sequence': seq, 'mutations': [], 'modifications': [term, side]})
     return out
 
 
